@@ -59,3 +59,17 @@ Print Assumptions C07_results_closed.
 Theorem C07_every_job_classified : forall W, wf W = true -> forall j, okjob W j \/ kojob W j.
 Proof. exact every_job_classified. Qed.
 Print Assumptions C07_every_job_classified.
+
+(* the adoption anomaly of 027db70 (audit finding 3; repaired by fb683b6), on the model with every repair
+   but that one: a job adopted while its process was running is set to ERROR by the failure of its
+   dependency (state s1: ERROR shown while the coroutine still waits for the process), later returns
+   DONE, and its dependent, all of whose dependencies are then DONE, has been cancelled without being
+   launched *)
+Theorem C07_adoption_error_refuted : exists W ls s s1, wf W = true /\
+  steps_gen W fixed_but6 (init W) ls = Some s /\
+  (exists ls1, steps_gen W fixed_but6 (init W) ls1 = Some s1 /\ st (jobs s1 1) = ERROR /\ pc (jobs s1 1) = PExt AAdopt) /\
+  pc (jobs s 1) = PReturned DONE /\
+  pc (jobs s 2) = PReturned ERROR /\ fdep (jobs s 2) = true /\ launches (jobs s 2) = 0%nat /\
+  (forall k, In (DJob k) (deps W 2) -> st (jobs s k) = DONE).
+Proof. exact adoption_error_refuted. Qed.
+Print Assumptions C07_adoption_error_refuted.
